@@ -229,3 +229,5 @@ def run(eng, rep):
     rule_projection_list(eng, rep)
     rule_scaling_off_with_projections(eng, rep)
     rule_at_least_one_sweep(eng, rep)
+    from .c15 import rule_limits_are_the_callers
+    rule_limits_are_the_callers(eng, rep, rule="C09-3b.dykstra-tests-the-callers-tolerance")
